@@ -92,7 +92,7 @@ def run_tlc(module: str, cfg: str | None = None, env: dict | None = None, worker
     """Run TLC in -tool mode on spec/<module>.tla and parse the message stream."""
     md = metadir or (ROOT / ".scratch" / f"tlc-{os.getpid()}-{int(time.time()*1000)%100000}")
     md.mkdir(parents=True, exist_ok=True)
-    cmd = ["java", "-XX:+UseParallelGC", f"-Xmx{heap}", "-cp", JAR]
+    cmd = ["java", "-XX:+UseParallelGC", f"-Xmx{heap}", "-Xss32m", "-cp", JAR]
     cmd += ["tlc2.TLC", "-tool", "-workers", str(workers), "-metadir", str(md), "-noGenerateSpecTE"]
     if cont:
         cmd.append("-continue")
